@@ -48,6 +48,15 @@ def facts_of_cond(cfg: CFG, c: Node, label: str, depth=0) -> Set[str]:
     e = c.ast
     out: Set[str] = set()
     T = label == "T"
+    if isinstance(e, ast.Name):
+        # `gone = key not in new_value; if gone:` - a condition computed into a local first
+        ds = reaching_defs(cfg, c, e.id)
+        if len(ds) == 1:
+            v = def_value(ds[0], e.id)
+            if isinstance(v, ast.UnaryOp) and isinstance(v.op, ast.Not):
+                v, T = v.operand, not T
+            if isinstance(v, (ast.Compare, ast.Call)) and not isinstance(v, ast.Name):
+                e = v
     if isinstance(e, ast.Compare) and len(e.ops) == 1:
         op, l, r = e.ops[0], e.left, e.comparators[0]
         if isinstance(op, (ast.Eq, ast.NotEq)):
